@@ -250,7 +250,6 @@ def make_call_objects(opts):
 def do_call(desc, root, ids_s, ids_d, opts):
     """Run the real call with fresh handles; returns the exception class name or None."""
     import signac
-    from signac.sync import sync_jobs, sync_projects
 
     filecmp.clear_cache()
     src = signac.get_project(os.path.join(root, "src"))
@@ -258,37 +257,43 @@ def do_call(desc, root, ids_s, ids_d, opts):
     strategy, doc_sync, exclude = make_call_objects(opts)
     entry = desc["entry"]
     buf = io.StringIO()
+    with contextlib.redirect_stdout(buf):      # a dry run prints the relative path of every file it would copy
+        return _do_call_inner(desc, src, dst, strategy, doc_sync, exclude, opts, entry)
+
+
+def _do_call_inner(desc, src, dst, strategy, doc_sync, exclude, opts, entry):
+    from signac.sync import sync_jobs, sync_projects
+
     try:
-        with contextlib.redirect_stdout(buf):
-            if entry in ("Project.sync", "sync_projects"):
-                sel = opts.get("selection")
-                if sel is None:
-                    selection = None
-                else:
-                    sids = [calc(sp) for sp in sel[1]]
-                    if sel[0] == "ids":
-                        selection = sids
-                    else:
-                        selection = [src.open_job(sp) for sp in sel[1]]
-                kwargs = dict(strategy=strategy, exclude=exclude, doc_sync=doc_sync, selection=selection,
-                              check_schema=opts.get("check_schema", True), recursive=opts.get("recursive", False),
-                              deep=opts.get("deep", False), dry_run=opts.get("dry_run", False),
-                              parallel=opts.get("parallel", False))
-                if entry == "Project.sync":
-                    dst.sync(src, **kwargs)
-                else:
-                    sync_projects(source=src, destination=dst, **kwargs)
+        if entry in ("Project.sync", "sync_projects"):
+            sel = opts.get("selection")
+            if sel is None:
+                selection = None
             else:
-                kind, ssp, dsp = entry
-                sj = src.open_job(ssp)
-                dj = dst.open_job(dsp)
-                kwargs = dict(strategy=strategy, exclude=exclude, doc_sync=doc_sync,
-                              recursive=opts.get("recursive", False), deep=opts.get("deep", False),
-                              dry_run=opts.get("dry_run", False))
-                if kind == "Job.sync":
-                    dj.sync(sj, **kwargs)
+                sids = [calc(sp) for sp in sel[1]]
+                if sel[0] == "ids":
+                    selection = sids
                 else:
-                    sync_jobs(src=sj, dst=dj, **kwargs)
+                    selection = [src.open_job(sp) for sp in sel[1]]
+            kwargs = dict(strategy=strategy, exclude=exclude, doc_sync=doc_sync, selection=selection,
+                          check_schema=opts.get("check_schema", True), recursive=opts.get("recursive", False),
+                          deep=opts.get("deep", False), dry_run=opts.get("dry_run", False),
+                          parallel=opts.get("parallel", False))
+            if entry == "Project.sync":
+                dst.sync(src, **kwargs)
+            else:
+                sync_projects(source=src, destination=dst, **kwargs)
+        else:
+            kind, ssp, dsp = entry
+            sj = src.open_job(ssp)
+            dj = dst.open_job(dsp)
+            kwargs = dict(strategy=strategy, exclude=exclude, doc_sync=doc_sync,
+                          recursive=opts.get("recursive", False), deep=opts.get("deep", False),
+                          dry_run=opts.get("dry_run", False))
+            if kind == "Job.sync":
+                dj.sync(sj, **kwargs)
+            else:
+                sync_jobs(src=sj, dst=dj, **kwargs)
         return None
     except Exception as e:       # noqa: BLE001
         return exn_name(e)
